@@ -886,6 +886,11 @@ func (fv *FV) stdlibCall(st *State, call *ast.CallExpr, fn *types.Func, full str
 		r.Go = s.Go
 		fv.assume(st, fmt.Sprintf("(and (= (sq.len %s) (sq.len %s)) (= (sq.ref %s) (sq.ref %s)) (forall ((i!q Int)) (! (=> (and (<= 0 i!q) (< i!q (sq.len %s))) (= (select (sq.arr %s) i!q) (select (sq.arr %s) (- (- (sq.len %s) 1) i!q)))) :pattern ((select (sq.arr %s) i!q)))))",
 			r.T, s.T, r.T, s.T, s.T, r.T, s.T, s.T, r.T))
+		{
+			es := seqElemSort(s.S)
+			mem := fv.sess.fnMem(es)
+			fv.assumeHint(st, mem, fmt.Sprintf("(forall ((x!q %s)) (! (= (%s %s x!q) (%s %s x!q)) :pattern ((%s %s x!q)) :pattern ((%s %s x!q))))", es, mem, r.T, mem, s.T, mem, r.T, mem, s.T))
+		}
 		fv.assign(st, call.Args[0], r)
 		return nil, true
 	case "slices.Delete":
@@ -1019,6 +1024,26 @@ func (fv *FV) inlineCall(st *State, d *declInfo, fn *types.Func, recv *Val, args
 	defer delete(fv.w.inlining, fn)
 	sig := fn.Type().(*types.Signature)
 	fv.note("callee %s inlined (no contract)", funcFullName(fn))
+	// generic callee: bind its type parameters to the instantiation at this call
+	if call, ok := at.(*ast.CallExpr); ok && sig.TypeParams() != nil && sig.TypeParams().Len() > 0 {
+		if id := calleeIdent(call); id != nil {
+			if inst, ok := fv.info().Instances[id]; ok {
+				var set []*types.TypeParam
+				for i := 0; i < sig.TypeParams().Len() && i < inst.TypeArgs.Len(); i++ {
+					tp := sig.TypeParams().At(i)
+					if _, had := tpSubst[tp]; !had {
+						tpSubst[tp] = inst.TypeArgs.At(i)
+						set = append(set, tp)
+					}
+				}
+				defer func() {
+					for _, tp := range set {
+						delete(tpSubst, tp)
+					}
+				}()
+			}
+		}
+	}
 	return fv.runBody(st, d.pkg, d.decl, nil, sig, d.decl.Type, d.decl.Recv, d.decl.Body, recv, args, at)
 }
 
@@ -1168,6 +1193,14 @@ func (fv *FV) callByContract(st *State, c *Contract, fn *types.Func, sig *types.
 	}
 	// frame
 	fv.havocFrame(st, c, env)
+	// channels the callee closes
+	for _, cp := range c.Closes {
+		for i, pn := range c.Params {
+			if pn == cp && i < len(all) {
+				fv.setChanClosed(st, all[i].T, "true")
+			}
+		}
+	}
 	// ghost assignments of the callee: evaluated on the pre-call state
 	for _, gs := range c.GhostSets {
 		nv := fv.evalSpec(&SpecEnv{fv: fv, names: names, cur: pre, old: pre, pkg: cpkg, tsub: tsub}, gs.Expr)
@@ -1330,6 +1363,22 @@ func shortName(full string) string {
 
 // havocFrame havocs the locations named by the callee's assigns clause.
 func (fv *FV) havocFrame(st *State, c *Contract, env *SpecEnv) {
+	if c.AllUnless != nil {
+		// everything may change unless the condition held on entry
+		penv := *env
+		penv.cur = env.old
+		cond := fv.evalSpecBool(&penv, c.AllUnless)
+		a, b := fv.branch(st, cond)
+		for _, x := range c.Assigns {
+			fv.havocSpecLoc(a, env, x)
+		}
+		for _, k := range sortedKeys(b.heap) {
+			fv.havocHeapKey(b, k)
+		}
+		m := fv.merge([]*State{a, b})
+		st.vars, st.heap, st.pc = m.vars, m.heap, st.pc
+		return
+	}
 	if !c.HasAssigns {
 		// no assigns clause: callee assigns nothing of the heap (checked when the callee is verified)
 		return
@@ -1462,7 +1511,7 @@ func (fv *FV) callMods(call *ast.CallExpr, ms *modSet, depth int) {
 		return
 	}
 	if c := fv.w.contractFor(full); c != nil {
-		if c.AssignsAll {
+		if c.AssignsAll || c.AllUnless != nil {
 			ms.heapAll = true
 			return
 		}
